@@ -277,9 +277,11 @@ AbandonClose ==
 
 ---------------------------------------------------------------------------
 \* interrogate_module.cxx:659-663: a database that could not be read while the table was
-\* written removes the output and ends the run with status 1
+\* written (they are loaded lazily by the first query) removes the output and ends the run with
+\* status 1
 LoadCheck(le) ==
   /\ pc = "LoadCheck" /\ pc' = "Exit"
+  /\ le => exists["oc"]        \* the databases are only read while the table is being written
   /\ loadErr' = le
   /\ IF le
        THEN /\ status' = 1 /\ diags' = diags + 1
